@@ -69,7 +69,9 @@ def crash_loop(ctx, q, beh, recv, crashes, allfails):
             else:
                 f.write(c["case"].split("#")[0] + "\n")
     else:
-        raise Infra("more than 10 distinct crashing inputs - giving up")
+        # ten crashing inputs found and skipped one after the other: that is the verdict (reported by finish()); the
+        # remaining cases of this pass are not run
+        print("NOTE: more than 10 distinct crashing inputs - the rest of this pass was not run")
     return ncases
 
 
